@@ -67,6 +67,7 @@ Emit == IsDoc => PrintT(<<"DOC", ToJson([lines |-> D.lines, marks |-> D.marks, i
 AllKws == {"given", "when", "then", "and", "but", "star"}
 NoArg == <<"none", "", "">>
 ArgsNone  == {NoArg}
+ArgsTab   == {NoArg, <<"table", "2x2", "none">>}
 ArgsSmall == {NoArg, <<"doc", "dq", "one">>, <<"table", "2x2", "none">>}
 ArgsMid   == {NoArg, <<"doc", "dq", "rich">>, <<"doc", "sq", "one">>, <<"doc", "dq", "empty">>, <<"table", "2x2", "none">>, <<"table", "1x3", "comment">>}
 ArgsFull  == ArgsMid \cup {<<"doc", "sq", "rich">>, <<"doc", "sq", "ind">>, <<"table", "1x1", "none">>, <<"table", "2x3", "blank">>}
